@@ -85,9 +85,7 @@ func (g ABCIGenesis) Spec() GenesisSpec {
 	spec.Distributor = &distrtypes.GenesisState{Params: g.Distr.Build()}
 	vg := DefaultVestingGenesis()
 	for _, vt := range g.VTypes {
-		lp, lu := wholeUnits(vt.LockupNs)
-		vp, vu := wholeUnits(vt.VestNs)
-		vg.VestingTypes = append(vg.VestingTypes, vestingtypes.GenesisVestingType{Name: vt.Name, LockupPeriod: lp, LockupPeriodUnit: lu, VestingPeriod: vp, VestingPeriodUnit: vu, Free: dec18(vt.Free18)})
+		vg.VestingTypes = append(vg.VestingTypes, vt.GenesisForm())
 	}
 	total := sdk.ZeroInt()
 	byOwner := map[int]*vestingtypes.AccountVestingPools{}
